@@ -268,6 +268,23 @@ def main():
     req = json.load(sys.stdin)
     signal.signal(signal.SIGALRM, _alarm)
     ad = Adapter(req['kind'], req['universe'], req['gidx'])
+    if req.get('mode') == 'keysort':
+        # sort(key=..., reverse=...) against the plain list's own sort (stable, ties keep their order)
+        KEYS = {'mod2': lambda n: n % 2, 'const': lambda n: 0, 'div2': lambda n: n // 2, 'neg': lambda n: -n}
+        res = []
+        for elems, kname, rev in req['cases']:
+            kf = KEYS[kname]
+            try:
+                c = ad.cls([ad.val(x) for x in elems])
+                c.sort(key=lambda v: kf(ad.back(v)), reverse=bool(rev))
+                got = [ad.back(v) for v in c]
+                idx = [c.index(ad.val(x)) for x in elems]
+            except Exception as e:  # noqa
+                got, idx = 'E ' + type(e).__name__, None
+            want = sorted(elems, key=kf, reverse=bool(rev))
+            res.append([got, want, idx, [want.index(x) for x in elems]])
+        json.dump(res, sys.stdout, separators=(',', ':'))
+        return
     trace = req.get('mode') == 'trace'
     if 'menu' in req:       # compact form: sequences as tuples of menu indices
         menu = req['menu']
